@@ -537,6 +537,16 @@ func runBlackout(c Case) kit.Outcome {
 	frt.SetDown(back, false)
 	upAt := time.Now()
 	window := detect + slack + 150*time.Millisecond + 2*time.Duration(c.PingMS)*time.Millisecond
+	// both callers may sit inside a slowly failing call across the moment of recovery, and probes
+	// that started before it fail as late as one fail delay after it (knocking the target out once
+	// more until the next detector period)
+	maxFail := 0
+	for _, ms := range c.FailDelayMS {
+		if ms > maxFail {
+			maxFail = ms
+		}
+	}
+	window += time.Duration(maxFail)*time.Millisecond + detect
 	time.Sleep(window)
 	stop()
 	stopped = true
